@@ -11,11 +11,11 @@ use serde_json::json;
 type M = CpuMath<Target>;
 
 #[derive(Clone, Debug)]
-pub struct Cfg { pub n: usize, pub k: usize, pub lowrank: bool, pub exact_normal: bool, pub target: u8, pub eps: f64, pub seed: u64, pub scale_range: f64 }
+pub struct Cfg { pub n: usize, pub k: usize, pub lowrank: bool, pub exact_normal: bool, pub target: u8, pub eps: f64, pub seed: u64, pub scale_range: f64, pub fresh: bool }
 
 impl Cfg {
-    pub fn to_json(&self) -> serde_json::Value { json!({"n": self.n, "k": self.k, "lowrank": self.lowrank, "exact_normal": self.exact_normal, "target": self.target, "eps": self.eps, "seed": self.seed, "scale_range": self.scale_range}) }
-    pub fn from_json(v: &serde_json::Value) -> Cfg { Cfg { n: v["n"].as_u64().unwrap() as usize, k: v["k"].as_u64().unwrap() as usize, lowrank: v["lowrank"].as_bool().unwrap(), exact_normal: v["exact_normal"].as_bool().unwrap(), target: v["target"].as_u64().unwrap() as u8, eps: v["eps"].as_f64().unwrap(), seed: v["seed"].as_u64().unwrap(), scale_range: v["scale_range"].as_f64().unwrap() } }
+    pub fn to_json(&self) -> serde_json::Value { json!({"n": self.n, "k": self.k, "lowrank": self.lowrank, "exact_normal": self.exact_normal, "target": self.target, "eps": self.eps, "seed": self.seed, "fresh": self.fresh, "scale_range": self.scale_range}) }
+    pub fn from_json(v: &serde_json::Value) -> Cfg { Cfg { n: v["n"].as_u64().unwrap() as usize, k: v["k"].as_u64().unwrap() as usize, lowrank: v["lowrank"].as_bool().unwrap(), exact_normal: v["exact_normal"].as_bool().unwrap(), target: v["target"].as_u64().unwrap() as u8, eps: v["eps"].as_f64().unwrap(), seed: v["seed"].as_u64().unwrap(), scale_range: v["scale_range"].as_f64().unwrap() , fresh: v["fresh"].as_bool().unwrap_or(false) } }
 }
 
 pub struct Params { pub mean: Vec<f64>, pub stds: Vec<f64>, pub vals: Vec<f64>, pub vecs: Vec<f64>, pub mu: Vec<f64> }
@@ -73,9 +73,22 @@ impl<MM: Math, P: Point<MM>> Collector<MM, P> for NoColl {}
 
 pub fn run(cfg: &Cfg) -> Result<StepOut, String> {
     let mut r = Sm::new(cfg.seed, "C02", 0);
-    let params = gen_params(cfg, &mut r);
+    let mut params = gen_params(cfg, &mut r);
     let tgt = target(cfg, &mut r);
     let mut math: M = CpuMath::new(tgt);
+    // the low-rank transformation as it is right after initialisation (`update_from_grad`: no spectral part yet, scales from the
+    // gradient at the start point): its parameters are read back through the hook accessor
+    let fresh_t = if cfg.lowrank && cfg.fresh {
+        let mut t = new_lowrank_matrix(&mut math, LowRankSettings::default());
+        let grad: Vec<f64> = (0..cfg.n).map(|_| (if r.coin() { 1.0 } else { -1.0 }) * r.log_uniform(1e-3, 1e3)).collect();
+        let mut pv = math.new_array(); math.read_from_slice(&mut pv, &params.mean);
+        let mut gv = math.new_array(); math.read_from_slice(&mut gv, &grad);
+        t.update_from_grad(&mut math, &pv, &gv, 1.0, (1e-20, 1e20));
+        let ((stds, _inv, mean, _, _), _, _, inner) = t.verif_fields(&mut math);
+        if inner.is_some() { return Err("update_from_grad left a spectral part".into()); }
+        params.stds = stds.to_vec(); params.mean = mean.to_vec(); params.vals = vec![]; params.vecs = vec![]; params.mu = vec![0.0; cfg.n];
+        Some(t)
+    } else { None };
     let kind = if cfg.exact_normal { KineticEnergyKind::ExactNormal } else { KineticEnergyKind::Euclidean };
     let x0: Vec<f64> = (0..cfg.n).map(|i| params.mean[i] + params.stds[i] * r.normal()).collect();
     let v0: Vec<f64> = (0..cfg.n).map(|_| r.normal()).collect();
@@ -108,7 +121,9 @@ pub fn run(cfg: &Cfg) -> Result<StepOut, String> {
         let br = back.as_ref().map(|s| rec(&mut math, s));
         Ok(StepOut { start, fwd: fr, back: br, params, roundtrip_err })
     }}; }
-    if cfg.lowrank {
+    if let Some(t) = fresh_t {
+        go!(t)
+    } else if cfg.lowrank {
         let t = new_lowrank_transform(&mut math, LowRankSettings::default(), &params.stds, &params.mean, &params.vals, &params.vecs, &params.mu);
         go!(t)
     } else {
@@ -207,8 +222,11 @@ pub fn main(tier: &str, seed: u64, outdir: &str) {
         let n = match case % 9 { 0 => 1, 1 => 2, 2 => maxn, _ => 1 + r.below(maxn as u64) as usize };
         let lowrank = case % 2 == 1;
         let k = if lowrank { match case % 5 { 0 => 0, 1 => n, _ => r.below(n as u64 + 1) as usize } } else { 0 };
+        // every twentieth case: the freshly initialised low-rank transformation (k = 0 in those cases)
+        let fresh = lowrank && case % 20 == 5;
         let cfg = Cfg { n, k, lowrank, exact_normal: case % 3 == 2, target: (case % 5) as u8,
-            eps: (if r.coin() { 1.0 } else { -1.0 }) * r.log_uniform(1e-4, 2.0), seed: r.next(), scale_range: *r.pick(&[0.0, 1.0, 3.0, 6.0, 8.0]) };
+            eps: (if r.coin() { 1.0 } else { -1.0 }) * r.log_uniform(1e-4, 2.0), seed: r.next(), scale_range: *r.pick(&[0.0, 1.0, 3.0, 6.0, 8.0]), fresh };
+        if fresh { rep.hit("lowrank.fresh_from_grad"); }
         rep.evaluations += 1;
         rep.hit(&format!("{}.{}", if lowrank { "lowrank" } else { "diag" }, if cfg.exact_normal { "exact_normal" } else { "euclidean" }));
         match run(&cfg) {
@@ -236,7 +254,7 @@ pub fn main(tier: &str, seed: u64, outdir: &str) {
     for case in 0..(ncase / 10) {
         let mut r = Sm::new(seed, "C02-exact", case);
         let n = 1 + r.below(8) as usize;
-        let mut cfg = Cfg { n, k: 0, lowrank: false, exact_normal: true, target: 1, eps: r.range(-3.0, 3.0), seed: r.next(), scale_range: 1.0 };
+        let mut cfg = Cfg { n, k: 0, lowrank: false, exact_normal: true, target: 1, eps: r.range(-3.0, 3.0), seed: r.next(), scale_range: 1.0, fresh: false };
         cfg.target = 9; // special: target N(mean, diag(stds²)) matching the transformation
         let mut rr = Sm::new(cfg.seed, "C02", 0);
         let params = gen_params(&cfg, &mut rr);
